@@ -8,7 +8,7 @@ TRUSTED_BASE = [
     "no extraction is used; no axiom is declared by the development",
 ]
 
-HOOK_COMMITS = ["b18f4f3", "f3e0595"]
+HOOK_COMMITS = ["b18f4f3", "f3e0595", "ad52d71"]
 NOT_YET = {}
 
 HCOBS_RULE = "exhaustive: every string over {FE, FD, 00} up to length 6 (quick) / 8 (thorough) at limits (3,5) and (1,1), unsplit and split in two with different methods and drains; random histories at tiny limits (3,5) (1,1) (2,3) (1,2) (4,4) (5,3) through the verif_hooks wrappers and at the production limits through the real Encoder/Decoder: messages of random / FE-FD-rich / FE-FD-only bytes, lengths 0-40, around 252, up to 1200, and (every 40th quick case, all thorough) around 64008, 252+64008 and 252+2*64008 with FE/FD planted at the limits; up to 6 pieces per side via borrow / copy / anchored / read, interleaved with consume-slices / advance-bytes / Read drains; a fifth of the cases feed malformed bytes to the decoder (truncated, out-of-radix, trailing, flipped, random); distinct = distinct case line; non-trivial = at least two encode calls or at least two chunks"
@@ -135,5 +135,21 @@ PROPS = {
         "level_text": "Theorems C04_holes_invisible / C04_observed_stable / C04_ok_iff_no_hole / C04_all_filled / C04_fill_any_order: in every reachable state of the Pipe model the consumable bytes are bytes only and a prefix of the buffer that stops before the first pending placeholder; producer steps (push, register, backfill) only extend the hole-free prefix, so an observable byte never changes; iovs/flatten/stable_consumer succeed iff no hole remains; once the table is empty every buffered byte is consumable; fills of different placeholders commute. Tied to the code as C03, with >= 2 placeholders in flight in a large share of cases and fills in random order; the check additionally verifies on the implementation's output that the exposed bytes are a prefix of the model's hole-free prefix.",
         "level_note": IOV_NOTE,
         "assumptions": IOV_ASSUME,
+    },
+    "C05": {
+        "families": ["anch"],
+        "n": {"quick": {"iovw": 1200}, "thorough": {"iovw": 25000}},
+        "rule": IOV_RULE,
+        "level_text": "Theorem C05_core (+ C05_anchored_window): in the model of GlobalDeque's ownership protocol (slices tagged with the arena chunk they point into, anchors with a slice count and a chunk; copies that join the back anchor or open a new one, borrowed pushes, merges of the last pair, anchored input of any number of pieces followed by its zero-count anchor, consume with its two pop loops, clear) every reachable state satisfies: counts sum to the number of slices and every arena slice is protected by an anchor that holds its chunk and cannot be popped before the slice is consumed; hence a chunk referenced by a remaining slice is held by a remaining anchor (Arc semantics: not released). PARTIAL: memory validity itself (Rust aliasing, provenance, the 'static lie) is not expressible in this model; it is checked, not proved: after every operation the harness verifies that every slice of every object lies inside a live chunk (hook registry) or a caller buffer, debug builds poison released chunks, and the model's anchor list and per-slice chunk ids are compared with the implementation's (hook verif_view).",
+        "level_note": "Trusted: Coq kernel; the ownership model (tied by exact comparison of anchors and per-slice chunks after every operation, the operation sequence being derived from the implementation's observations); Arc (a chunk is released when its last holder goes); the hook registry of live chunk ranges. Not modelled: undefined behaviour in the Rust sense.",
+        "assumptions": ["Arc<Chunk> releases the chunk exactly when the last clone is dropped", "caller-provided buffers outlive the iovec (borrow checker)"],
+    },
+    "C10": {
+        "families": ["anch"],
+        "n": {"quick": {"iovw": 1200}, "thorough": {"iovw": 25000}},
+        "rule": IOV_RULE,
+        "level_text": "Theorems C10_find_hint_size / C10_live_iff_held / C10_no_leak: the model of the arena size policy (find_hint_size over the translated size sequence) returns a capacity >= the request, strictly larger than the previous chunk below 1 MiB and never above max(1 MiB, request rounded up to 4 KiB), so at most |sequence| sub-MiB chunks are ever created per arena; in the ownership model a chunk is live exactly while some anchor or cache holds it and nothing is live once every holder is gone. PARTIAL: the streaming footprint bound is measured, not proved: after every operation of every history the harness compares the process-wide live chunk counter with the number of chunks referenced by any anchor or allocation cache of any object (a hidden holder or a stuck anchor shows as a numeric disagreement) and checks that it returns to zero when every object is dropped; the thorough tier streams hundreds of MiB through an Encoder and records the peak of live bytes.",
+        "level_note": "Trusted: Coq kernel; Arc; the global counters NUM_LIVE_CHUNKS / NUM_LIVE_BYTES (single-threaded harness process); the system allocator and RSS are not modelled.",
+        "assumptions": ["single-threaded harness process, counters start from a recorded baseline"],
     },
 }
